@@ -12,6 +12,7 @@ C={
  "C05":("4.5","E1-enum","The C01 space under ZIP-215 plus the full 14x14 small-order product and constructed small-order triples, with the two mode relations checked on every triple, single and batch.",T),
  "C06":("4.6","E1-enum + E2-seq","Deviation-bounded (number of bad entries <=2, thorough <=3) enumeration of batches over 27 lengths x positions x 15 bad-entry kinds x 6 option sets, and all sequences of <=3 full chunks over 7 chunk kinds x remainders inside one call; every entry compared with the model and with single verification.",T),
  "C07":("4.7","E1-enum","All 144 ordered variant/context pairs x keys x messages x {single, batch 4, batch 65}; every context length 0..300, digest length 0..130, hash selector 0..20 on all three entry points.",T),
+ "C08":("4.8","E1-enum x configurations","One deterministic generator of ~12k API calls (triples incl. torsion / non-canonical / boundary cases in both modes, key generation, signing, batches with every bad-entry kind, X25519, conversions) compiled into all 7 build configurations; per-case output digests compared with the default configuration, whose outputs are checked against the model by the other properties.","bounded exhaustive enumeration of inputs x build configurations with transcript equality"),
  "C09":("4.9","E1-enum","Complete finite set of torsion encodings (positive), [k]B+T_i for all 8 T_i (negative), exhaustive 13-bit (thorough 16-bit) y scan, at the predicate and end to end (single and batch call sites), two limb layouts.",T),
  "C16":("4.16","E1-enum","The table selector on its complete finite domain (32 rows x 17 digits) on every backend, all table constants, fixed-base multiplication on the nibble-pattern alphabet through both expansion paths, double-base multiplication on W5/W7 digit alphabets x 14 points incl. small-order / mixed-order / +-B / identity, vs the model; 4 (thorough 7) build configurations.",T),
  "C17":("4.17","E1-enum + E2-seq","The multi-scalar routine on every heap size 2n+1 (thorough: every n in 4..64) x 20 scalar-magnitude profiles (incl. common factors that make the final Bos-Coster scalar > 1) x point profiles, compared with the exact sum from the model; all sequences of <=3 chunk sizes on a reused heap; vartime helpers on limb-boundary pairs; all-valid batches of every size 4..200 end to end with the fallback hook (no fallback allowed).",T),
